@@ -21,8 +21,10 @@ PARTIAL = ["hash-seed independence of sympy internals is observed on the sampled
 
 
 def worker(args):
-    seed, k, perm, container, hashseed = args
+    seed, k, perm, container, hashseed = args[:5]
     env = dict(os.environ, PYTHONHASHSEED=str(hashseed), PYTHONPATH=f"{core.REPO}/py:{core.VERIF}/harness", PYTHONDONTWRITEBYTECODE="1")
+    if len(args) > 5:
+        env["C15_CLOCK_SCALE"] = str(args[5])
     r = subprocess.run(["/venv/bin/python", "-B", os.path.join(core.VERIF, "harness", "c15_worker.py"), str(seed), str(k), str(perm), container],
                        capture_output=True, text=True, env=env, timeout=900)
     line = [l for l in r.stdout.splitlines() if l.startswith("C15RESULT ")]
@@ -39,6 +41,8 @@ def run(ctx):
         for hs in seeds:
             for p in perms:
                 jobs.append((ctx.seed, k, p, "set" if (hs + p) % 2 == 0 else "list", hs))
+        # one more generation of the same definition in a process for which time passes 5000 times faster
+        jobs.append((ctx.seed, k, perms[0], "set" if (seeds[0] + perms[0]) % 2 == 0 else "list", seeds[0], 5000))
     with ThreadPoolExecutor(max_workers=14) as ex:
         results = list(ex.map(worker, jobs))
     drv = core.Driver()
@@ -50,7 +54,7 @@ def run(ctx):
     for k, runs in by_def.items():
         ref = None
         for job, res in runs:
-            case = {"definition": k, "hashseed": job[4], "perm": job[2], "container": job[3]}
+            case = {"definition": k, "hashseed": job[4], "perm": job[2], "container": job[3], "clock_scale": job[5] if len(job) > 5 else 1}
             ctx.case(case, nontrivial=ref is not None)
             ctx.count(f"hashseed={job[4]}"); ctx.count(f"container={job[3]}"); ctx.traces += 1
             if "error" in res:
